@@ -97,6 +97,17 @@ pub fn install_hook() {
     }));
 }
 
+/// Run `f` with panic output suppressed (no catching).
+pub fn quiet<R>(f: impl FnOnce() -> R) -> R {
+    QUIET.with(|q| q.set(q.get() + 1));
+    let r = panic::catch_unwind(AssertUnwindSafe(f));
+    QUIET.with(|q| q.set(q.get() - 1));
+    match r {
+        Ok(v) => v,
+        Err(p) => panic::resume_unwind(p),
+    }
+}
+
 #[derive(Debug, Clone)]
 pub struct Caught {
     pub injected: bool,
